@@ -65,7 +65,7 @@ PROP_INFO["C11"] = {
     "outside": ["arrays longer than 4 (K)", "integers outside the I-JSON range", "the parser's own range check"],
 }
 
-HOOK_COMMITS = ["fda5525"]
+HOOK_COMMITS = ["fda5525", "8508a74"]
 
 NOT_APPLICABLE = [
     {"property_id": "C09", "reason": "reference/reference_mut = pest parser + serde_json BTreeMap pointer lookup; neither goes through CBMC (parser: no verdict in 20 min on a 3-byte concrete input; 2-member BTreeMap lookup: OOM at 12 GB), and the function exists only for serde_json::Value"},
